@@ -189,11 +189,11 @@ func (k Keeper) CalculationOfRewards(
 
 	yearsElapsed := sdk.NewDec(secondsElapsed).QuoInt64(types.SecondsPerYear)
 	perc := lsr.String()
-	a, _ := sdk.NewDecFromStr("1")
 	b, _ := sdk.NewDecFromStr(perc)
-	factor1 := a.Add(b)
-	intPerBlockFactor := math.Pow(factor1.MustFloat64(), yearsElapsed.MustFloat64())
-	intAccPerBlock := intPerBlockFactor - types.Float64One
+	// (1+r)^y - 1 computed as expm1(y*log1p(r)): subtracting 1 from math.Pow's result
+	// quantises the accrual to ulp(1) = 2.2e-16 of the principal, which made two
+	// consecutive short accruals yield more than one accrual over the combined interval
+	intAccPerBlock := math.Expm1(yearsElapsed.MustFloat64() * math.Log1p(b.MustFloat64()))
 	amtFloat := sdk.NewDec(amount.Int64()).MustFloat64()
 	newAmount := intAccPerBlock * amtFloat
 
